@@ -21,7 +21,27 @@ def chk(N):
     return w is None, 'same language', 'differs on %r' % w
 
 
-CHECKS = {'nfa_to_dfa': lambda c: chk(build(c['N']))}
+def edit_in_place(N, edits):
+    """apply in-place edits to the transition map of N (the caller owns N and may change it between calls): each edit is
+    ('add', q, a, t) or ('del', q, a, t); a is a letter or the epsilon symbol of N"""
+    for op, q, a, t in edits:
+        if op == 'add':
+            if (q, a) in N.delta: N.delta[q, a].add(t)
+            else: N.delta[q, a] = {t}
+        elif (q, a) in N.delta: N.delta[q, a].discard(t)
+
+
+def chk_history(N, edits):
+    """the subset construction is a function of the CURRENT content of its argument: run it, let the owner edit the NFA in place, run it again"""
+    r = chk(N)
+    if not r[0]: return r
+    edit_in_place(N, edits)
+    if not ref.nfa_wf(N): return True, None, None
+    r = chk(N)
+    return (r[0], 'after in-place edits %s: %s' % (edits, r[1]), r[2])
+
+
+CHECKS = {'nfa_to_dfa': lambda c: chk(build(c['N'])), 'nfa_to_dfa_history': lambda c: chk_history(build(c['N']), [tuple(e) for e in c['edits']])}
 def replay(case): return CHECKS[case['check']](case['case'])
 
 
@@ -57,4 +77,12 @@ def run(R):
         n = rnd.randint(2, 5); names = rnd.choice(styles)
         N = E.random_nfa(rnd, n, 'ab'[:rnd.randint(1, 2)], eps=rnd.choice(['', 'e', '_']), names=names[:n] if names else None)
         case(N, 'r%d' % i)
+        if i % 3 == 0 and (len(N.Q) > 6 or naming_ok(N)):       # the same NFA object again after its owner edited it in place (stale caches would show)
+            Qs = sorted(N.Q); syms = sorted(N.Sigma) + [N.epsilon]
+            edits = [(rnd.choice(['add', 'add', 'del']), rnd.choice(Qs), rnd.choice(syms), rnd.choice(Qs)) for _ in range(rnd.randint(1, 2))]
+            N2 = E.random_nfa(rnd, n, 'ab'[:rnd.randint(1, 2)], eps=rnd.choice(['', 'e', '_']))
+            Qs = sorted(N2.Q); syms = sorted(N2.Sigma) + [N2.epsilon]
+            edits = [(rnd.choice(['add', 'add', 'del']), rnd.choice(Qs), rnd.choice(syms), rnd.choice(Qs)) for _ in range(rnd.randint(1, 2))]
+            d2 = desc(N2)
+            R.guard('nfa_to_dfa_history', 'subset-construction-after-edit', lambda: {'N': d2, 'edits': [list(e) for e in edits]}, lambda: chk_history(N2, edits) + (('h%d' % i,),), 'nfa_to_dfa')
     R.bounds['nfa'] = 'all epsilon-NFAs with 2 states over {a} (every second one in quick); seeded random NFAs with 2-5 states over {a}/{a,b}, plain/total/defaultdict maps, three epsilon symbols, state names in four styles (plain, product-style "(p,q)", set-style "{q0,q1}", mixed); equivalence decided exactly by product search with an independent subset construction'
